@@ -72,9 +72,20 @@ fn main() {
         replay_path,
         args: rest,
     };
+    // replays of cases found by the generated-type part go to the generated-code binary
+    if let Some(rp) = &ctx.replay {
+        let sub = rp["sub"].as_str().unwrap_or("");
+        if ["roundtrip", "generated-total", "generated-async", "generated-unchecked", "leak", "default"].contains(&sub) && ["C04", "C09", "C11", "C12"].contains(&id.as_str()) {
+            std::process::exit(genpipe::run_gent_check(&ctx, &id));
+        }
+    }
     let code = match id.as_str() {
         "C01" => c01::run(&ctx),
         "C02" => genpipe::run_gent_check(&ctx, "C02"),
+        "C08" => genpipe::run_gent_check(&ctx, "C08"),
+        "C13" => genpipe::run_gent_check(&ctx, "C13"),
+        "C19" => genpipe::run_gent_check(&ctx, "C19"),
+        "C20" => genpipe::run_gent_check(&ctx, "C20"),
         "C03" => c03::run(&ctx),
         "C04" => c04::run(&ctx),
         "C07" => c07::run(&ctx),
